@@ -39,9 +39,18 @@ pub struct PythSpec {
     pub expo: i32,
 }
 
+pub struct SwbSpec {
+    pub key_ok: bool,
+    pub owner_ok: bool,
+    pub last: i64,
+    pub value: i128,
+    pub std_dev: i128,
+}
+
 pub struct BankSpec {
     pub key: Pubkey,
     pub pyth: Option<PythSpec>,
+    pub swb: Option<SwbSpec>,
     pub oracle_meta: Option<Pubkey>, // the account actually passed
 }
 
@@ -185,8 +194,52 @@ pub fn build_world(rng: &mut Rng) -> (World, Pubkey, Vec<BankSpec>, Pubkey) {
             oracle_meta = Some(if spec.key_ok { oracle } else { spare_oracle });
             pyth = Some(spec);
         }
+        // a fifth of the remaining banks are priced by a Switchboard pull feed (fresh, exactly at the bank's maximum age, one
+        // second beyond it, long stale, from the future; now and then the wrong account or the wrong owner)
+        let mut swb = None;
+        if pyth.is_none() && rng.chance(1, 2) {
+            let value: i128 = match rng.below(6) {
+                0 => 0,
+                1 => (rng.below(1_000_000) as i128) * 1_000_000_000_000,
+                2 | 3 => (rng.below(100_000) as i128 + 1) * 1_000_000_000_000_000_000,
+                4 => (rng.below(2_000_000) as i128 + 1) * 1_000_000_000_000_000_000,
+                _ => (rng.below(1_000_000_000) as i128) * 1_000_000_000,
+            };
+            let a = value.unsigned_abs();
+            let std_dev: i128 = match rng.below(6) {
+                0 => 0,
+                1 => (a / 1000) as i128,
+                2 => (a / 50) as i128,
+                3 => (a / 42) as i128 + rng.range(-2, 2) as i128,
+                4 => (a / 9) as i128,
+                _ => (rng.u128() >> 64) as i128 % (a.max(1) as i128),
+            };
+            let age_cfg = cfg.oracle_max_age as i64;
+            let last = match rng.below(8) {
+                0 | 1 => now - age_cfg,
+                2 => now - age_cfg - 1,
+                3 => now - 100 * age_cfg.max(1),
+                4 => now + 3,
+                _ => now - rng.below(age_cfg as u64 + 1) as i64,
+            };
+            let key_ok = !rng.chance(1, 14);
+            let owner_ok = !rng.chance(1, 14);
+            let mut feed: switchboard_on_demand::PullFeedAccountData = bytemuck::Zeroable::zeroed();
+            feed.result.value = value;
+            feed.result.std_dev = std_dev;
+            feed.last_update_timestamp = last;
+            let mut data = Vec::new();
+            data.extend_from_slice(&<switchboard_on_demand::PullFeedAccountData as switchboard_on_demand::Discriminator>::DISCRIMINATOR);
+            data.extend_from_slice(bytemuck::bytes_of(&feed));
+            let oracle = w.new_key();
+            w.put(oracle, if owner_ok { marginfi::constants::SWITCHBOARD_PULL_ID } else { solana_program::system_program::ID }, data);
+            cfg.oracle_setup = OracleSetup::SwitchboardPull;
+            cfg.oracle_keys[0] = oracle;
+            oracle_meta = Some(if key_ok { oracle } else { spare_oracle });
+            swb = Some(SwbSpec { key_ok, owner_ok, last, value, std_dev });
+        }
         // (only fixed-price banks: a Drift bank with a live oracle also needs its spot-market account in the risk accounts)
-        if want_drift && pyth.is_none() {
+        if want_drift && pyth.is_none() && swb.is_none() {
             cfg.asset_tag = marginfi_type_crate::constants::ASSET_TAG_DRIFT;
         }
         let h = w.add_bank(group, mint, cfg);
@@ -219,7 +272,7 @@ pub fn build_world(rng: &mut Rng) -> (World, Pubkey, Vec<BankSpec>, Pubkey) {
             b.emode.flags &= !marginfi_type_crate::types::EMODE_ON;
         }
         w.set_bank(&h.bank, &b);
-        specs.push(BankSpec { key: h.bank, pyth, oracle_meta });
+        specs.push(BankSpec { key: h.bank, pyth, swb, oracle_meta });
     }
     let wallet = w.add_wallet(1_000_000_000);
     let acct = w.add_marginfi_account(group, wallet);
@@ -270,9 +323,10 @@ pub fn describe(w: &World, acct: &Pubkey, specs: &[BankSpec]) -> String {
             parts.push(format!("{} {} {} {}", e.collateral_bank_emode_tag, e.flags, bits(e.asset_weight_init), bits(e.asset_weight_maint)));
         }
         parts.push(format!("{} {}", bits(bal.asset_shares), bits(bal.liability_shares)));
-        match &spec.pyth {
-            None => parts.push(format!("0 {}", bits(b.config.fixed_price))),
-            Some(p) => parts.push(format!(
+        match (&spec.pyth, &spec.swb) {
+            (None, Some(sw)) => parts.push(format!("2 {} {} {} {} {}", sw.key_ok as u8, sw.owner_ok as u8, sw.last, sw.value, sw.std_dev)),
+            (None, None) => parts.push(format!("0 {}", bits(b.config.fixed_price))),
+            (Some(p), _) => parts.push(format!(
                 "1 {} {} {} {} {} {} {} {} {} {}",
                 p.key_ok as u8, p.owner_ok as u8, p.disc_ok as u8, p.full as u8, p.publish, p.price, p.conf, p.ema, p.ema_conf, p.expo
             )),
